@@ -87,6 +87,7 @@ type Interp struct {
 	merges    int
 	curFn     *ssa.Function
 	probes    []probe
+	clockTicks int
 	fixed     map[string]uint64
 	symFmtOK  int
 	initBroken map[*ssa.Package]bool
